@@ -130,6 +130,12 @@ type Trace struct {
 	Restarts   []Restart
 	Steps      int
 	Broadcasts int // BroadcastTxCommit calls that passed CheckTx
+	// LastPureDKG is, per eon, the last committed content of the puredkg row (gob of puredkg.PureDKG). The row is
+	// deleted when the key generation is finalized, in the transaction of the block whose height shifts the phase
+	// and before that block's events are handled, so this is the state ComputeResult ran on.
+	LastPureDKG map[int64][]byte
+	// PureDKGHistory are all contents the puredkg rows went through, in commit order (consecutive repeats once).
+	PureDKGHistory [][]byte
 }
 
 // Keyper is one keyper: a database that lives as long as the run, and a process incarnation (pool,
@@ -319,6 +325,15 @@ func (k *Keyper) observeLocked() {
 	}
 	for ; k.seenMeta < len(db.TendermintSyncMeta); k.seenMeta++ {
 		k.Trace.SyncBlocks = append(k.Trace.SyncBlocks, db.TendermintSyncMeta[k.seenMeta].CurrentBlock)
+	}
+	for _, r := range db.Puredkg {
+		if k.Trace.LastPureDKG == nil {
+			k.Trace.LastPureDKG = map[int64][]byte{}
+		}
+		if prev, ok := k.Trace.LastPureDKG[r.Eon]; !ok || string(prev) != string(r.Puredkg) {
+			k.Trace.PureDKGHistory = append(k.Trace.PureDKGHistory, append([]byte{}, r.Puredkg...))
+		}
+		k.Trace.LastPureDKG[r.Eon] = append([]byte{}, r.Puredkg...)
 	}
 	var fp strings.Builder
 	for _, r := range db.TendermintOutgoingMessages {
